@@ -24,13 +24,34 @@ pub struct Rejects {
     /// control packets that failed authentication: (packet_number, packet_len, control_data_len)
     pub control: Vec<(u64, u64, u64)>,
     pub control_seen: u64,
+    /// processing passes per (endpoint stream span, packet number, stream offset, payload length,
+    /// packet length): the receiver publishes `stream_packet_received` each time it starts to
+    /// process a buffered stream packet
+    pub passes: BTreeMap<(u64, u64, u64, u64, u64), u32>,
+    /// stream packets a sender saw acknowledged (`stream_packet_acked`): (packet number, stream
+    /// offset, payload length, packet length)
+    pub acked: std::collections::BTreeSet<(u64, u64, u64, u64)>,
 }
 
 const RECV_STATE_TARGET: &str = "s2n_quic_dc::stream::recv::state";
 const CONTROL_EVENT: &str = "stream_control_packet_received";
+const STREAM_EVENT: &str = "stream_packet_received";
+const ACKED_EVENT: &str = "stream_packet_acked";
+
+thread_local! {
+    static NEXT_SPAN: std::cell::Cell<u64> = const { std::cell::Cell::new(2) };
+}
+
+fn is_conn_span(meta: &Metadata<'_>) -> bool {
+    meta.is_span() && meta.target() == "s2n_quic_dc" && meta.name() == "conn"
+}
 
 fn is_reject_callsite(meta: &Metadata<'_>) -> bool {
-    (meta.target() == RECV_STATE_TARGET && meta.is_event() && meta.fields().field("non_fatal_error").is_some()) || meta.target() == CONTROL_EVENT
+    (meta.target() == RECV_STATE_TARGET && meta.is_event() && meta.fields().field("non_fatal_error").is_some())
+        || meta.target() == CONTROL_EVENT
+        || meta.target() == STREAM_EVENT
+        || meta.target() == ACKED_EVENT
+        || is_conn_span(meta)
 }
 
 #[derive(Default)]
@@ -76,6 +97,8 @@ struct ControlVisitor {
     pn: u64,
     len: u64,
     cd: u64,
+    off: u64,
+    plen: u64,
     auth: bool,
 }
 
@@ -89,6 +112,8 @@ impl tracing::field::Visit for ControlVisitor {
             "packet_number" => self.pn = num(),
             "packet_len" => self.len = num(),
             "control_data_len" => self.cd = num(),
+            "stream_offset" => self.off = num(),
+            "payload_len" => self.plen = num(),
             "is_authenticated" => self.auth = txt == b"true",
             _ => {}
         }
@@ -135,8 +160,17 @@ impl tracing::Subscriber for Capture {
     fn enabled(&self, meta: &Metadata<'_>) -> bool {
         interesting(meta.target()).is_some() || is_reject_callsite(meta)
     }
-    fn new_span(&self, _span: &span::Attributes<'_>) -> span::Id {
-        span::Id::from_u64(1)
+    fn new_span(&self, span: &span::Attributes<'_>) -> span::Id {
+        // one id per stream endpoint ("conn" span of the dc event subscriber); everything else shares 1
+        if is_conn_span(span.metadata()) {
+            span::Id::from_u64(NEXT_SPAN.with(|n| {
+                let v = n.get();
+                n.set(v + 1);
+                v
+            }))
+        } else {
+            span::Id::from_u64(1)
+        }
     }
     fn record(&self, _span: &span::Id, _values: &span::Record<'_>) {}
     fn record_follows_from(&self, _span: &span::Id, _follows: &span::Id) {}
@@ -153,6 +187,17 @@ impl tracing::Subscriber for Capture {
                 if !v.auth {
                     r.control.push((v.pn, v.len, v.cd));
                 }
+            });
+        } else if target == STREAM_EVENT {
+            let mut v = ControlVisitor::default();
+            event.record(&mut v);
+            let span = event.parent().map_or(0, |p| p.into_u64());
+            REJECTS.with(|r| *r.borrow_mut().passes.entry((span, v.pn, v.off, v.plen, v.len)).or_insert(0) += 1);
+        } else if target == ACKED_EVENT {
+            let mut v = ControlVisitor::default();
+            event.record(&mut v);
+            REJECTS.with(|r| {
+                r.borrow_mut().acked.insert((v.pn, v.off, v.plen, v.len));
             });
         } else if target == RECV_STATE_TARGET {
             let mut v = StreamVisitor::default();
@@ -174,6 +219,7 @@ pub fn install() -> tracing::subscriber::DefaultGuard {
 pub fn reset() {
     COUNTS.with(|c| c.borrow_mut().clear());
     REJECTS.with(|r| *r.borrow_mut() = Rejects::default());
+    NEXT_SPAN.with(|n| n.set(2));
 }
 
 pub fn take_rejects() -> Rejects {
